@@ -67,20 +67,27 @@ def readExact : Nat → Stream → Nat → Bytes → Stream × Except Err Bytes
     | (s', .error e) => (s', .error e)
     | (s', .ok got) => if got.isEmpty then (s', .error .io) else readExact fuel s' n (acc ++ got)
 
+/-- `__get_response_size` + `read_exact_alloc` (client/mod.rs, client/network.rs): the four size bytes, then exactly that
+    many payload bytes; a negative size is a decoding error (nothing more is read); the payload buffer grows with the bytes
+    that actually arrive, so the announced size alone never causes an allocation -/
+def getResponse (s : Stream) : Stream × Except Err Bytes :=
+  match readExact 5 s 4 [] with
+  | (s2, .error e) => (s2, .error e)
+  | (s2, .ok szb) =>
+    let size := decI szb
+    if size < 0 then (s2, .error .codec) else
+    match readExact (size.toNat + 1) s2 size.toNat [] with
+    | (s3, .error e) => (s3, .error e)
+    | (s3, .ok payload) => (s3, .ok payload)
+
 /-- `__send_request` + `__get_response` on one connection: the reply payload, or the failure -/
 def exchange (s : Stream) (frame : Bytes) (expectReply : Bool) : Stream × Except Err (Option Bytes) :=
   match writeAll (frame.length + 1) s frame with
   | (s1, .error e) => (s1, .error e)
   | (s1, .ok ()) =>
     if !expectReply then (s1, .ok none) else
-    match readExact 5 s1 4 [] with
-    | (s2, .error e) => (s2, .error e)
-    | (s2, .ok szb) =>
-      let size := decI szb
-      -- `vec![0; size as usize]` for a negative size is the capacity-overflow panic (C13); here: failure
-      if size < 0 then (s2, .error .io) else
-      match readExact (size.toNat + 1) s2 size.toNat [] with
-      | (s3, .error e) => (s3, .error e)
-      | (s3, .ok payload) => (s3, .ok (some payload))
+    match getResponse s1 with
+    | (s3, .error e) => (s3, .error e)
+    | (s3, .ok payload) => (s3, .ok (some payload))
 
 end Kafka.Model
